@@ -7,7 +7,7 @@
 (* rest of the trace is still examined.  The trace is accepted iff no      *)
 (* MISMATCH line was printed and every line was consumed (postcondition).  *)
 (***************************************************************************)
-EXTENDS Literal, Json, IOUtils, TLC
+EXTENDS UintCanon, Json, IOUtils, TLC
 
 Rec == ndJsonDeserialize(IOEnv.TRACE)
 
@@ -26,6 +26,7 @@ Check(e) ==
          [] e.g = "codec" -> CheckCodec(e)
          [] e.g = "fac"   -> CheckFac(e)
          [] e.g = "lit"   -> CheckLit(e)
+         [] e.g = "canon" -> CheckCanon(e)
          [] OTHER -> [unknown_group |-> FALSE]
 
 Fails(c) == LET cc == c IN {f \in DOMAIN cc : ~cc[f]}
